@@ -3,37 +3,6 @@ namespace Rt
 open CQ (Ev R)
 open FES (minEv)
 
-theorem nextTime_refines {m : CQ.State} {s : FES.State} (h : R m s) :
-    CQ.nextTime m = FES.nextTime s := by
-  by_cases hl : m.len = 0
-  · obtain ⟨_, h2⟩ := CQ.fetch_empty h hl
-    unfold CQ.nextTime FES.nextTime
-    simp only [hl, if_true]
-    unfold FES.fetch at h2
-    split at h2
-    · cases h2
-    · split at h2
-      · rename_i hm; simp [hm]
-      · cases h2
-  · obtain ⟨e, m', s', h1, h2, _⟩ := CQ.fetch_ok h hl
-    unfold CQ.nextTime FES.nextTime
-    unfold CQ.fetch at h1
-    simp only [hl, if_false] at h1 ⊢
-    unfold FES.fetch at h2
-    rw [← h.zero] at h2 ⊢
-    cases hz : m.zero with
-    | cons e0 z => rfl
-    | nil =>
-      rw [hz] at h1 h2
-      simp only at h1 h2 ⊢
-      rw [h1]
-      cases hm : minEv s.pend with
-      | none => rw [hm] at h2; cases h2
-      | some e' =>
-        rw [hm] at h2
-        simp only [Except.ok.injEq, Prod.mk.injEq] at h2
-        simp [h2.1]
-
 /-- the calendar queue and the abstract event set are interchangeable under the runtime -/
 theorem cq_fes_sim : ESim cqES fesES R where
   add a b t v h := by
@@ -52,7 +21,7 @@ theorem cq_fes_sim : ESim cqES fesES R where
     · left
       obtain ⟨e, m', s', h1, h2, hr⟩ := CQ.fetch_ok h hl
       exact ⟨e, m', s', by simp [cqES, h1], by simp [fesES, h2], hr⟩
-  next a b h := nextTime_refines h
+  next a b h := CQ.nextTime_refines h
   len a b h := h.len
 
 theorem build_srel (n t : Nat) (hn : 1 ≤ n) (ht : 1 ≤ t) (start : Nat) (l : Limit) :
